@@ -546,18 +546,19 @@ Fixpoint elf_loop (fuel : nat) (ranges subtags : list str) : bool :=
       end
     end
   end.
-Definition extended_language_filter (lang_range lang_tag : str) : bool :=
-  let lr := lower (sub_delete cm_RE_WILD_STRIP lang_range) in
-  let ranges := split_on 45%N lr in
-  let subtags := split_on 45%N (lower lang_tag) in
+(* on the split, lower-cased subtag lists *)
+Definition elf_core (ranges subtags : list str) : bool :=
   match ranges, subtags with
   | r :: rs, s :: ss =>
     if Nat.eqb (length ranges) 1 && Nat.eqb (length subtags) 1 && str_eqb r [] && str_eqb r s then true
     else if (negb (str_eqb r L_star) && negb (str_eqb r s))
-            || (str_eqb r L_star && Nat.eqb (length subtags) 1 && str_eqb s []) then false
+            || (str_eqb r L_star && Nat.eqb (length subtags) 1 && str_eqb s [])
+            || str_eqb r [] then false
     else elf_loop (length rs + length ss + 1) rs ss
   | _, _ => false
   end.
+Definition extended_language_filter (lang_range lang_tag : str) : bool :=
+  elf_core (split_on 45%N (lower (sub_delete cm_RE_WILD_STRIP lang_range))) (split_on 45%N (lower lang_tag)).
 
 (* the attribute loop of match_lang on one element: first lang / xml:lang value *)
 Fixpoint lang_attr (has_ns html_ns : bool) (l : list (akey * pyval)) : res (option nval) :=
